@@ -125,12 +125,44 @@ def run_scenario(sc, variant=0):
 
     df = materialise(sc)
     feats, fixed, sep = featurizer_args(sc, variant)
+    # every fourth variant: the levels of the fixed effects are NUMBERS (district numbers, codes) in the frame and in the
+    # selected lists - same order as the letters; the observed column names are translated back (seeded change C16_E:
+    # the column stringified before it is compared with the selected values)
+    back = {}
+    fes = list(sc["fes"])
+    order = list(sc.get("order", []))
+
+    def _before_other(fe):
+        # pandas sorts mixed levels numbers first, strings ("other") last: the numeric spelling is order-preserving only
+        # where every level of a pooled effect sorts before "other" in the scenario's explicit string order
+        if not (isinstance(fixed, dict) and isinstance(fixed.get(fe), list) and fixed[fe] != ["all"]):
+            return True
+        if "other" not in order:
+            return False
+        lv = set(df[fe].unique()) | set(fixed[fe])
+        return all(x in order and order.index(x) < order.index("other") for x in lv)
+
+    if variant % 4 == 3 and fes and all(df[fe].notna().all() for fe in fes) and all(_before_other(fe) for fe in fes):
+        letters = sorted({v for fe in fes for v in df[fe].unique()} | {x for fe in fes if isinstance(fixed, dict) and isinstance(fixed.get(fe), list) for x in fixed[fe] if x != "all"})
+        num = {l: 1 + 2 * k for k, l in enumerate(letters)}  # noqa: E741
+        for fe in fes:
+            df[fe] = df[fe].map(num).astype(int)
+            if isinstance(fixed, dict) and isinstance(fixed.get(fe), list):
+                fixed[fe] = [num.get(x, x) for x in fixed[fe]]
+            for l, k in num.items():  # noqa: E741
+                back[f"{fe}_{k}"] = f"{fe}_{l}"
+
+    def names(cols):
+        return [back.get(str(c), str(c)) for c in cols]
+
     obs = {"raised": None, "complete": None, "active": None, "xall": None, "mats": []}
     try:
         fz = Featurizer(feats, fixed, states_for_separate_model=sep)
         x_all = fz.prepare_data(df, center_features=bool(sc["center"]), scale_features=False, add_intercept=bool(sc["intercept"]))
-        obs["complete"] = [str(c) for c in x_all.columns]
-        obs["active"] = [str(c) for c in fz.active_features]
+        obs["complete"] = names(x_all.columns)
+        obs["active"] = names(fz.active_features)
+        obs["numeric_levels"] = bool(back)
+        obs["numeric_levels_pooled"] = bool(back) and isinstance(fixed, dict) and any(isinstance(v, list) and v != ["all"] for v in fixed.values())
         obs["xall"] = matrix(x_all)
         n = len(df)
         for s in sc["slices"]:
@@ -141,7 +173,7 @@ def run_scenario(sc, variant=0):
                 # an empty positional slice at the place the caller would cut
                 part = x_all[n:n]
             out = fz.filter_to_active_features(part) if s["kind"] == "fit" else fz.generate_holdout_data(part)
-            obs["mats"].append({"kind": s["kind"], "rows": rows, "cols": [str(c) for c in out.columns], "M": matrix(out)})
+            obs["mats"].append({"kind": s["kind"], "rows": rows, "cols": names(out.columns), "M": matrix(out)})
     except Exception as e:  # noqa: BLE001
         obs["raised"] = f"{type(e).__name__}: {str(e)[:200]}"
     return obs
